@@ -16,7 +16,7 @@ ASSUME = ["eligibility is computed from the module states *observed* right befor
 
 
 def build(tier, seed):
-    n = 500 if tier == "quick" else 20000
+    n = 500 if tier == "quick" else 12000
     cases = []
     for i in range(n):
         s = seed * 1000003 + i
